@@ -804,6 +804,14 @@ func ruleV13(c *Ctx) {
 				// operand positions read from the matched row of the instruction table, in the emitters
 				// where that was confirmed by reading — whatever the locals are called today
 				if reason, ok := tableRowReason(c, f); ok && isStringSliceType(x.Type()) && fromTableRow(idx, map[ssa.Value]bool{}, 0) {
+					// where the listed reason includes a tested upper bound, that test must still be there
+					if strings.Contains(reason, "upper bound tested") {
+						curUseBlock = b
+						if _, ub := upperBoundTested(f, x, idx, b, nil); !ub {
+							c.fail("V13", key, c.L.Pos(instrPos(in)), "this site was accepted because its index, read from the table row, is tested against the operand count; that test is gone")
+							continue
+						}
+					}
 					c.ok("V13", key, c.L.Pos(instrPos(in)), "confirmed by reading: "+reason)
 					continue
 				}
@@ -857,6 +865,21 @@ func varIndexCovered(f *ssa.Function, x, idx ssa.Value, blk *ssa.BasicBlock) (st
 	}
 	if !nonNegative(idx, 0) && !testedNonNegative(f, idx, blk) {
 		return "", false
+	}
+	return upperBoundTested(f, x, idx, blk, same)
+}
+
+// upperBoundTested: a dominating comparison bounds idx by len of the same slice (the lower
+// bound is the caller's business).
+func upperBoundTested(f *ssa.Function, x, idx ssa.Value, blk *ssa.BasicBlock, same func(ssa.Value) bool) (string, bool) {
+	if same == nil {
+		same = func(a ssa.Value) bool {
+			if a == x {
+				return true
+			}
+			ka, kx := lenKey(f, a), lenKey(f, x)
+			return ka != "" && ka == kx
+		}
 	}
 	for _, b := range f.Blocks {
 		iff, ok := b.Instrs[len(b.Instrs)-1].(*ssa.If)
